@@ -273,7 +273,10 @@ def apply_prop_filter(el, ab):
         matched = True
         for subel in el:
             if subel.tag == "{urn:ietf:params:xml:ns:carddav}text-match":
-                if not apply_text_match(subel, str(prop_el)):
+                value = prop_el.value
+                if not isinstance(value, str):
+                    value = str(value)
+                if not apply_text_match(subel, value):
                     matched = False
                     break
             elif subel.tag == "{urn:ietf:params:xml:ns:carddav}param-filter":
